@@ -7,6 +7,8 @@ use serde::de::DeserializeOwned;
 use serde::Serialize;
 use serde_json::{json, Value};
 
+pub mod adjlist;
+pub mod adjsut;
 pub mod unionfind;
 
 pub enum OpFeed<Op> {
@@ -143,6 +145,8 @@ fn guarded<Op>(name: &str, f: impl FnOnce() -> Exec, ops: *const Vec<Op>) -> Exe
 pub fn get(name: &str) -> Option<Box<dyn Engine>> {
     Some(match name {
         "unionfind" => Box::new(H(unionfind::UnionFindEngine)),
+        "graph" => Box::new(H(adjlist::AdjEngine { stable: false, mode: adjlist::Mode::Refine })),
+        "stable" => Box::new(H(adjlist::AdjEngine { stable: true, mode: adjlist::Mode::Refine })),
         _ => return None,
     })
 }
